@@ -34,7 +34,9 @@ type BasePathFile struct {
 
 func (f *BasePathFile) Name() string {
 	sourcename := f.File.Name()
-	return strings.TrimPrefix(sourcename, filepath.Clean(f.path))
+	// strip the base path without its trailing separator, so that the result keeps
+	// its leading separator for the root base path "/" as it does for any other
+	return strings.TrimPrefix(sourcename, strings.TrimSuffix(filepath.Clean(f.path), FilePathSeparator))
 }
 
 func (f *BasePathFile) ReadDir(n int) ([]fs.DirEntry, error) {
